@@ -205,7 +205,7 @@ specification.  The model is compared with the real `Module.Validate` on generat
 mutants (accept/reject must agree), and on every numeric instruction with every operand/result typing. -/
 
 open Wz.Model.Validator in
-/-- Soundness for ALL W0 bodies.  Finding switch (observation Q3/F37): the validator as pinned accepts
+/-- Soundness for ALL W0 bodies.  Finding switch (observation Q3/F43): the validator as pinned accepts
 alignment exponents ≥ 63 (`1<<align` is evaluated on a 64-bit int), which the specification rejects; the
 repaired validator accepts exactly the bodies with `check = ok ∧ alignSane`, and for those: -/
 theorem validate_sound_W0 (C : Ctx) (body : List TI) (hal : alignSane body = true)
